@@ -21,6 +21,15 @@
                                   snapshot meta (`seek_resume`, hypotheses discharged by the accounting invariant `Acc` over the
                                   append decomposition `allFiles_append`/`splitC_inv`), replay of the remaining chunks:
                                   `readAll (files of pre ++ post) (commit after pre, its meta) = ok (events of post at their offsets)`
+    * `readAll_reduce`            the general wrapper lemma: chunks closed by earlier sessions + current chunk + layout with an
+                                  arbitrary continuation of the last chunk; with the commit's meta or WITHOUT meta
+    * `Sessions`, `sessions_good`, `readAll_resume_sessions`   ANY number of writer sessions (fresh binlog, batches of appends,
+                                  restarts with `wsInit`): the invariant `Good` (closed chunks scan and precede the current one,
+                                  `Acc`, `CurOK`) holds along every history, and readAll at any commit, with or without its
+                                  meta, = ok (exactly the later events at their offsets)
+    * `readAll_truncated`         the truncation theorems lifted through readAll (scan, sort, chunk choice, seek included)
+    * `commit_covered_per_file`   every committed offset is covered, file by file (closed chunks incl. their ROTATE_TO), by that
+                                  file's fsync; the C18-r3-2 mutation (`rotateFSBad`) violates it (`decide` witness)
     * `readAll_from_start`        the same from offset 0 without meta: LevStart and tag are skipped (`step_start`, `step_tag`)
     * `iter_files_layout`         one writer-loop iteration leaves on disk exactly `allFiles` (contents: `writeBuffer_split`)
     * `apNext_buff`               the layout's bytes are exactly what `putLevToBuffer` puts into the buffer (+ rotatePos entry)
@@ -39,6 +48,7 @@ import SH.Lemmas.BinlogCut
 import SH.Lemmas.BinlogWriter
 import SH.Lemmas.BinlogAll
 import SH.Lemmas.BinlogWB
+import SH.Lemmas.BinlogMulti
 open SH.Binlog
 namespace SH.C18
 
@@ -405,6 +415,183 @@ theorem readAll_from_start (cfg : Cfg) (hm : cfg.evMagic < 4294967296) (hsvc : c
   exact ⟨hrep.1, by simpa [ev2, ev1] using hrep.2.1, hrep.2.2.1, hrep.2.2.2⟩
 
 
+/-! ### readAll for any history of sessions, with or without meta, and on truncated file lists (Lemmas/BinlogMulti) -/
+
+theorem curOK_nonempty (cfg : Cfg) (c : Cur) (hk : CurOK cfg c) : c.bytes.length ≠ 0 := by
+  intro h
+  have hb : c.hd = [] := by
+    have : c.hd.length = 0 := by simp only [Cur.bytes, List.length_append] at h; omega
+    exact List.eq_nil_of_length_eq_zero this
+  have := (hk []).1
+  rw [hb] at this
+  simp [scanHeader] at this
+
+/-- how the reader was asked to start at the commit `(pos, crc)`: without snapshot meta, or with the meta of that commit -/
+def MetaFor (pos : Nat) (crc : UInt32) (si : Option Meta) : Prop := si = none ∨ ∃ mts, si = some ⟨pos, crc, mts⟩
+
+/-- **readAll reduces to the replay of the remaining chunks** — for the general file list: chunks `D0` closed by earlier writer
+    sessions, the chunk `c0` being written when the appends `pre ++ post` start (`w` is the writer state at that moment — the one
+    of a fresh binlog or one rebuilt by a restart), the later chunks of the layout, the last chunk continued by arbitrary bytes
+    `k1` (e.g. a cut).  `readAllFromPosition` called with the offset of a commit after `pre`, with that commit's meta or without
+    meta, passes scan, sort, chunk choice and seek (checksum verified or recomputed) and equals `finish` of the loop started in
+    a state that matches the writer after `pre` on the rest of that chunk. -/
+theorem readAll_reduce (cfg : Cfg) (hupd : ∀ c a b, cfg.upd (cfg.upd c a) b = cfg.upd c (a ++ b))
+    (D0 : List Bytes) (pre post : List Ap) (w : WS) (c0 : Cur) (k1 : Bytes) (ts0 : Nat) (si : Option Meta)
+    (hb : (runAll cfg w (pre ++ post)).offG < 9223372036854775808)
+    (hp : PreOK cfg D0 c0.pos) (ha : Acc cfg w c0) (hk : CurOK cfg c0) (wk : WS) (hwk : wk = runAll cfg w pre)
+    (hsi : MetaFor wk.offG wk.crc si) :
+    ∃ (s : RS) (fuel : Nat), At s wk.offG wk.crc (layoutC cfg wk post (k1, [])).1 ∧
+      (layoutC cfg wk post (k1, [])).1.length / 4 + 2 ≤ fuel ∧ s.eng.evs = [] ∧
+      (let r := readAll cfg (D0 ++ allFilesK cfg w (pre ++ post) c0.bytes k1) wk.offG si ts0 ⟨wk.offG, [], []⟩
+       let f := finish cfg (readLoop cfg fuel s) ((layoutC cfg wk post (k1, [])).2.map hdrOf)
+       r.pos = f.1 ∧ r.crc = f.2.1 ∧ r.err = f.2.2.1 ∧ r.eng = f.2.2.2.1) := by
+  subst hwk
+  generalize hwk : runAll cfg w pre = wk at hsi ⊢
+  have hbk : (runAll cfg wk post).offG < 9223372036854775808 := by rw [← hwk, ← runAll_append]; exact hb
+  have hbk0 : wk.offG < 9223372036854775808 := Nat.lt_of_le_of_lt (runAll_mono cfg post wk) hbk
+  obtain ⟨hscan, hinc⟩ := scan_filesK cfg D0 w (pre ++ post) c0 k1 hb hp ha hk
+  obtain ⟨hacc, hck⟩ := splitC_inv cfg hupd pre w c0 (by rw [hwk]; exact hbk0) ha hk
+  have hpre := splitC_preOK cfg pre w c0 D0 (by rw [hwk]; exact hbk0) (by have := ha.1; omega) hk hp
+  rw [hwk] at hacc
+  have hfiles := allFilesK_append cfg k1 pre post w c0
+  rw [hwk] at hfiles
+  generalize hD : (splitC cfg w pre c0).1 = D at hfiles hpre
+  generalize hcK : (splitC cfg w pre c0).2 = cK at hfiles hacc hck hpre
+  have hlat := laterOK_facts cfg _ _ (layout_laterOK_K cfg k1 post wk hbk)
+  let c2 := (layoutC cfg wk post (k1, [])).1
+  let l2 := (layoutC cfg wk post (k1, [])).2
+  have hcf : cK.bytes ++ c2 = cK.hd ++ (cK.body ++ c2) := by simp [Cur.bytes, List.append_assoc]
+  have hcpos : (gh (cK.bytes ++ c2)).pos = (cK.pos : Int) := by rw [hcf]; exact (hck _).2.1
+  have hccrc : (gh (cK.bytes ++ c2)).crc = cK.crc := by rw [hcf]; exact (hck _).2.2
+  have hH : (D0 ++ allFilesK cfg w (pre ++ post) c0.bytes k1).map gh = ((D0 ++ D).map gh ++ [gh (cK.bytes ++ c2)]) ++ l2.map gh := by
+    rw [hfiles]; simp [allFilesK, c2, l2]
+  rw [hH] at hscan hinc
+  have hPk : (cK.pos : Int) ≤ (wk.offG : Int) := by have := hacc.1; omega
+  have hle : ∀ h ∈ (D0 ++ D).map gh ++ [gh (cK.bytes ++ c2)], h.pos ≤ (wk.offG : Int) := by
+    intro h hh
+    rcases List.mem_append.mp hh with hh | hh
+    · have := hpre.2.2 h hh; omega
+    · simp only [List.mem_singleton] at hh; subst hh; omega
+  have hgt : ∀ h ∈ (l2.map gh).head?, (wk.offG : Int) < h.pos := by
+    intro h hh
+    exact hlat.2.2.2 h (List.mem_of_mem_head? hh)
+  have hidx := indexByPos_split (wk.offG : Int) ((D0 ++ D).map gh ++ [gh (cK.bytes ++ c2)]) (l2.map gh) 0 0 (by simp) hle hgt
+  have hidx' : indexByPos (wk.offG : Int) (((D0 ++ D).map gh ++ [gh (cK.bytes ++ c2)]) ++ l2.map gh) 0 0 = (D0 ++ D).length := by
+    rw [hidx]; simp
+  have hdrop : (((D0 ++ D).map gh ++ [gh (cK.bytes ++ c2)]) ++ l2.map gh).drop (D0 ++ D).length = gh (cK.bytes ++ c2) :: l2.map hdrOf := by
+    rw [List.append_assoc, List.drop_append_of_le_length (by simp), List.drop_of_length_le (by simp)]
+    simp only [List.nil_append, List.singleton_append]
+    rw [hlat.2.1]
+  obtain ⟨h0, hs, hcons⟩ : ∃ h0 hs, ((D0 ++ D).map gh ++ [gh (cK.bytes ++ c2)]) ++ l2.map gh = h0 :: hs := by
+    cases hl : ((D0 ++ D).map gh ++ [gh (cK.bytes ++ c2)]) ++ l2.map gh with
+    | nil => simp at hl
+    | cons a b => exact ⟨a, b, rfl⟩
+  have hlow : ¬ ((wk.offG : Int) < h0.pos) := by
+    have hmem : h0 ∈ (D0 ++ D).map gh ++ [gh (cK.bytes ++ c2)] := by
+      cases hd : (D0 ++ D).map gh ++ [gh (cK.bytes ++ c2)] with
+      | nil => simp at hd
+      | cons a b => rw [hd] at hcons; simp at hcons; rw [← hcons.1]; simp
+    have := hle h0 hmem; omega
+  rw [hcons] at hscan hidx' hdrop
+  have hfuel : (layoutC cfg wk post (k1, [])).1.length / 4 + 2 ≤ (layoutC cfg wk post (k1, [])).1.length / 2 + 4 := by omega
+  -- the seek, with or without meta
+  rcases hsi with rfl | ⟨mts, rfl⟩
+  · have hne := curOK_nonempty cfg cK hck
+    have hseek := seek_nometa cfg (gh (cK.bytes ++ c2)) cK.bytes c2 ts0 (gh_data _) hne
+    have hpos : (gh (cK.bytes ++ c2)).pos + (cK.bytes.length : Int) = (wk.offG : Int) := by rw [hcpos]; have := hacc.1; omega
+    rw [hpos, gh_data, List.take_left' rfl, hccrc, hacc.2] at hseek
+    refine ⟨{ pos := (wk.offG : Int), crc := wk.crc, rest := c2, slack := c2.length % 4, dk := false, ts := ts0, commitPos := 0,
+              eng := ⟨wk.offG, [], []⟩ }, c2.length / 2 + 4, ⟨rfl, rfl, rfl, rfl, rfl, rfl⟩, hfuel, rfl, ?_⟩
+    simp only [readAll, hscan, hlow, if_false, hidx', hdrop, readFiles_first, readFile, hseek]
+    exact ⟨rfl, rfl, rfl, rfl⟩
+  · have hseek := seek_resume cfg (gh (cK.bytes ++ c2)) cK.bytes c2 ⟨wk.offG, wk.crc, mts⟩ ts0 (gh_data _)
+      (by simp only [hcpos]; have := hacc.1; omega) (by rw [hccrc]; exact hacc.2)
+    refine ⟨{ pos := (wk.offG : Int), crc := wk.crc, rest := c2, slack := c2.length % 4, dk := false, ts := mts, commitPos := 0,
+              eng := ⟨wk.offG, [], []⟩ }, c2.length / 2 + 4, ⟨rfl, rfl, rfl, rfl, rfl, rfl⟩, hfuel, rfl, ?_⟩
+    simp only [readAll, hscan, hlow, if_false, hidx', Int.lt_irrefl, or_false, ne_eq, not_true_eq_false, hdrop, readFiles_first,
+      readFile, hseek]
+    exact ⟨rfl, rfl, rfl, rfl⟩
+
+
+/-! ### any number of writer sessions -/
+
+/-- what the file list and the writer satisfy at any moment of any history of sessions: the closed chunks scan and lie in
+    front of the current chunk, the current chunk accounts for the writer's position and checksum, its header scans -/
+structure Good (cfg : Cfg) (D0 : List Bytes) (w : WS) (c : Cur) : Prop where
+  pre : PreOK cfg D0 c.pos
+  acc : Acc cfg w c
+  ok : CurOK cfg c
+
+/-- histories: a fresh binlog; a batch of accepted appends (closing chunks as they rotate); a writer restart — the new writer
+    state is `wsInit` of what a replay returned (position, checksum, last header, timestamp: any values for the latter two) -/
+inductive Sessions (cfg : Cfg) (sy ty : Bytes) : List Bytes → WS → Cur → Prop
+  | start (w : WS) : StartsAt cfg w sy ty → Sessions cfg sy ty [] w (initCur cfg sy ty)
+  | append {D0 : List Bytes} {w : WS} {c : Cur} (as : List Ap) : Sessions cfg sy ty D0 w c →
+      (runAll cfg w as).offG < 9223372036854775808 →
+      Sessions cfg sy ty (D0 ++ (splitC cfg w as c).1) (runAll cfg w as) (splitC cfg w as c).2
+  | restart {D0 : List Bytes} {w : WS} {c : Cur} (b : Bool) (last : Hdr) (ts : Nat) : Sessions cfg sy ty D0 w c →
+      Sessions cfg sy ty D0 (wsInit cfg b w.offG w.crc last ts) c
+
+/-- the accounting invariant only looks at the writer's position and checksum, which `wsInit` takes over from the replay -/
+theorem acc_wsInit (cfg : Cfg) (w : WS) (c : Cur) (b : Bool) (last : Hdr) (ts : Nat) (h : Acc cfg w c) :
+    Acc cfg (wsInit cfg b w.offG w.crc last ts) c := h
+
+theorem sessions_good (cfg : Cfg) (hupd : ∀ c a b, cfg.upd (cfg.upd c a) b = cfg.upd c (a ++ b)) (hs : cfg.schema < 4294967296)
+    (sy ty : Bytes) (hsy : sy.length = 16) (hty : ty.length = 16) {D0 : List Bytes} {w : WS} {c : Cur}
+    (h : Sessions cfg sy ty D0 w c) : Good cfg D0 w c := by
+  induction h with
+  | start w hw => exact ⟨preOK_nil cfg _, initCur_acc cfg w sy ty hsy hty hw, initCur_ok cfg sy ty hs hsy⟩
+  | append as _ hb ih =>
+    obtain ⟨ha, hk⟩ := splitC_inv cfg hupd as _ _ hb ih.acc ih.ok
+    exact ⟨splitC_preOK cfg as _ _ _ hb (by have := ih.acc.1; omega) ih.ok ih.pre, ha, hk⟩
+  | restart b last ts _ ih => exact ⟨ih.pre, acc_wsInit cfg _ _ b last ts ih.acc, ih.ok⟩
+
+/-- **readAll = ok (suffix), any history, with or without meta.**  After any history of sessions (`Good`), the appends
+    `pre ++ post` are made; `readAllFromPosition` at the offset of a commit issued after `pre`, with that commit's snapshot meta
+    or with no meta, delivers exactly the events of `post`, in order, at the offsets `Append` returned. -/
+theorem readAll_resume_sessions (cfg : Cfg) (hm : cfg.evMagic < 4294967296) (hsvc : cfg.evMagic ∉ serviceMagics)
+    (hupd : ∀ c a b, cfg.upd (cfg.upd c a) b = cfg.upd c (a ++ b))
+    (D0 : List Bytes) (pre post : List Ap) (w : WS) (c0 : Cur) (ts0 : Nat) (si : Option Meta)
+    (hsz : ∀ a ∈ pre ++ post, a.body.length < 4294967296 ∧ a.ts < 4294967296)
+    (hb : (runAll cfg w (pre ++ post)).offG < 9223372036854775808) (hg : Good cfg D0 w c0)
+    (wk : WS) (hwk : wk = runAll cfg w pre) (hsi : MetaFor wk.offG wk.crc si) (r : RA)
+    (hr : r = readAll cfg (D0 ++ allFiles cfg w (pre ++ post) c0.bytes) wk.offG si ts0 ⟨wk.offG, [], []⟩) :
+    r.err = none ∧ r.eng.evs = (offsR cfg wk post).reverse ∧ r.pos = ((runAll cfg wk post).offG : Int) ∧
+      r.crc = (runAll cfg wk post).crc := by
+  obtain ⟨s, fuel, hat, hf, hev, hred⟩ := readAll_reduce cfg hupd D0 pre post w c0 [] ts0 si hb hg.pre hg.acc hg.ok wk hwk hsi
+  have hbk : (runAll cfg wk post).offG < 9223372036854775808 := by rw [hwk, ← runAll_append]; exact hb
+  have hrep := replay_rotating cfg hm hsvc post wk s fuel (fun a ha' => hsz a (List.mem_append_right _ ha')) hbk hat hf
+  rw [allFilesK_nil] at hred
+  rw [← hr] at hred
+  obtain ⟨h1, h2, h3, h4⟩ := hred
+  refine ⟨by rw [h3]; exact hrep.1, by rw [h4, hrep.2.1, hev]; simp, by rw [h1]; exact hrep.2.2.1, by rw [h2]; exact hrep.2.2.2⟩
+
+/-- **truncation through readAll.**  Any history (`Good`), then appends `pre1 ++ pre2 ++ post`.  Of the chunk in which `post`
+    starts only `t` bytes behind that point are left, all later files are gone.  `readAllFromPosition` at the commit after
+    `pre1` (with its meta or without) — scan, sort, chunk choice, seek, replay — ends WITHOUT error and delivers the events of
+    `pre2` and then exactly the events of `post` that are complete in what is left: a prefix, never a partial event.
+    Excluded shape (the known finding): a file cut inside its own ROTATE_FROM header — here every remaining file keeps its header. -/
+theorem readAll_truncated (cfg : Cfg) (hm : cfg.evMagic < 4294967296) (hsvc : cfg.evMagic ∉ serviceMagics)
+    (hupd : ∀ c a b, cfg.upd (cfg.upd c a) b = cfg.upd c (a ++ b))
+    (D0 : List Bytes) (pre1 pre2 post : List Ap) (w : WS) (c0 : Cur) (ts0 t : Nat) (si : Option Meta)
+    (hsz : ∀ a ∈ pre2 ++ post, a.body.length < 4294967296 ∧ a.ts < 4294967296)
+    (hb : (runAll cfg w (pre1 ++ pre2)).offG < 9223372036854775808) (hg : Good cfg D0 w c0)
+    (wk : WS) (hwk : wk = runAll cfg w pre1) (hsi : MetaFor wk.offG wk.crc si)
+    (ht : t ≤ (layoutC cfg (runAll cfg wk pre2) post ([], [])).1.length) (r : RA)
+    (hr : r = readAll cfg (D0 ++ allFilesK cfg w (pre1 ++ pre2) c0.bytes ((layoutC cfg (runAll cfg wk pre2) post ([], [])).1.take t))
+            wk.offG si ts0 ⟨wk.offG, [], []⟩) :
+    r.err = none ∧
+    r.eng.evs = ((offsR cfg (runAll cfg wk pre2) post).take (completeC cfg (runAll cfg wk pre2) post t)).reverse ++
+      (offsR cfg wk pre2).reverse := by
+  obtain ⟨s, fuel, hat, hf, hev, hred⟩ := readAll_reduce cfg hupd D0 pre1 pre2 w c0
+    ((layoutC cfg (runAll cfg wk pre2) post ([], [])).1.take t) ts0 si hb hg.pre hg.acc hg.ok wk hwk hsi
+  have hbk : (runAll cfg wk pre2).offG < 9223372036854775808 := by rw [hwk, ← runAll_append]; exact hb
+  have htr := truncate_tail_files cfg hm hsvc pre2 post wk s fuel t hsz hbk ht hat hf
+  rw [← hr] at hred
+  obtain ⟨_, _, h3, h4⟩ := hred
+  refine ⟨by rw [h3]; exact htr.1, by rw [h4, htr.2, hev]; simp⟩
+
+
 /-! ### the writer loop writes the layout (Lemmas/BinlogWB) -/
 
 theorem flat_nil (cfg : Cfg) (w : WS) (as : List Ap) (h : flat cfg w as = []) : as = [] := by
@@ -699,6 +886,51 @@ theorem commit_le_fsynced (cfg : Cfg) (B : Nat) (ops : List WOp) (s : Sys) (h : 
     | cons op ops ih => exact ih _ (fsInv_step cfg B s op h)
   refine ⟨hinv, hinv.commits, ?_⟩
   rw [syncedEnd_of_older hinv.older]; simp only [writtenEnd]; have := hinv.sle; simp only [SyncedLe] at this; omega
+
+
+/-! ### durability per file: every committed offset is covered by an fsync of the file that holds it -/
+
+/-- walking the files oldest first from global position `p`: of each file, the bytes below the committed offset `c` lie inside
+    the prefix covered by that file's last fsync (`FileS.synced` is the ghost "synced" mark of the file) -/
+def coveredFrom (c : Int) : Int → List FileS → Bool
+  | _, [] => true
+  | p, f :: fs => decide (min (c - p) (f.data.length : Int) ≤ (f.synced : Int)) && coveredFrom c (p + f.data.length) fs
+
+def Covered (B : Nat) (l : LS) (c : Int) : Bool := coveredFrom c B (l.older.reverse ++ [l.cur])
+
+theorem coveredFrom_all (c : Int) : ∀ (p : Int) (fs : List FileS), (∀ f ∈ fs, f.synced = f.data.length) → coveredFrom c p fs = true
+  | _, [], _ => rfl
+  | p, f :: fs, h => by
+    have hf := h f (List.mem_cons_self ..)
+    simp only [coveredFrom, Bool.and_eq_true, decide_eq_true_eq]
+    exact ⟨by rw [hf]; omega, coveredFrom_all c _ fs (fun x hx => h x (List.mem_cons_of_mem _ hx))⟩
+
+theorem coveredFrom_snoc (c : Int) (y : FileS) : ∀ (p : Int) (xs : List FileS),
+    coveredFrom c p (xs ++ [y]) = (coveredFrom c p xs && decide (min (c - (p + ((xs.map (·.data.length)).sum : Nat))) (y.data.length : Int) ≤ (y.synced : Int)))
+  | p, [] => by simp [coveredFrom]
+  | p, x :: xs => by
+    have e : (p + (x.data.length : Int)) + (((xs.map (·.data.length)).sum : Nat) : Int)
+        = p + ((((x :: xs).map (·.data.length)).sum : Nat) : Int) := by
+      simp only [List.map_cons, List.sum_cons]; push_cast; omega
+    simp only [List.cons_append, coveredFrom, coveredFrom_snoc c y _ xs, e, Bool.and_assoc]
+
+/-- **commit_covered_per_file.**  For every schedule of appends and writer-loop iterations, for every offset ever announced
+    through `Engine.Commit` and for EVERY file — the closed chunks with their ROTATE_TO record as well as the current one — the
+    bytes of that file below the committed offset were covered by an fsync of that file. -/
+theorem commit_covered_per_file (cfg : Cfg) (B : Nat) (ops : List WOp) (s : Sys) (h : FsInv B s) :
+    ∀ c ∈ (run cfg s ops).l.commits, Covered B (run cfg s ops).l c.off = true := by
+  obtain ⟨hinv, hc, _⟩ := commit_le_fsynced cfg B ops s h
+  intro c hcm
+  have hle := hc c hcm
+  have hold := hinv.older
+  simp only [Covered, coveredFrom_snoc, Bool.and_eq_true, decide_eq_true_eq]
+  refine ⟨coveredFrom_all _ _ _ (fun f hf => hold f (List.mem_reverse.mp hf)), ?_⟩
+  rw [syncedEnd_of_older hold] at hle
+  have hsum : ((run cfg s ops).l.older.reverse.map (·.data.length)).sum = ((run cfg s ops).l.older.map (·.data.length)).sum := by
+    rw [List.map_reverse, List.sum_reverse]
+  rw [hsum]
+  push_cast at hle ⊢
+  omega
 
 
 /-! ### appends around shutdown: refused or durable -/
@@ -1013,6 +1245,68 @@ example : (putLev cfgR (iterNoStop (run cfgR sys0 (opsT.take 4)) false).w 24 (en
           (putLev cfgR (iter (run cfgR sys0 (opsT.take 4)) false true).w 24 (encEvent 0x12345 [7]) false 5 0 0).2.1 = .stopped := by decide
 
 
+
+/-! round 4: sessions, resume without meta, truncation through readAll -/
+
+def w3 : WS := runAll cfgX wS (apsT.take 3)
+def D3 : List Bytes := (splitC cfgX wS (apsT.take 3) (initCur cfgX syT tyT)).1
+def c3 : Cur := (splitC cfgX wS (apsT.take 3) (initCur cfgX syT tyT)).2
+/-- the writer rebuilt by a restart after the third append (position and checksum from the replay) -/
+def wR : WS := wsInit cfgX true w3.offG w3.crc (hdrOf c3.bytes) 0
+/-- first session: three appends (the third rotates); restart; second session: two appends into the second chunk -/
+def filesR : List Bytes := D3 ++ allFiles cfgX wR (apsT.drop 3) c3.bytes
+
+set_option maxRecDepth 60000 in
+example : Sessions cfgX syT tyT ([] ++ D3) wR c3 :=
+  .restart true (hdrOf c3.bytes) 0 (.append (apsT.take 3) (.start wS ⟨rfl, rfl⟩) (by decide))
+set_option maxRecDepth 60000 in
+example : (filesR.map (·.length), (offsR cfgX wR (apsT.drop 3)).map (·.1)) = ([156, 80], [192, 204]) := by decide
+-- readAll_resume_sessions: resume at the restart position 192 without meta and with the meta of that commit
+set_option maxRecDepth 60000 in
+example : (readAll cfgX filesR 192 none 0 ⟨192, [], []⟩).eng.evs.map (·.1) = [204, 192] ∧
+          (readAll cfgX filesR 192 (some ⟨192, wR.crc, 5⟩) 0 ⟨192, [], []⟩).eng.evs.map (·.1) = [204, 192] := by decide
+-- readAll_truncated: the second chunk cut 20 bytes behind its header (the event at 192 is complete, the one at 204 is cut)
+set_option maxRecDepth 60000 in
+example : completeC cfgX wR (apsT.drop 3) 20 = 1 ∧
+    (readAll cfgX (D3 ++ allFilesK cfgX wR [] c3.bytes ((layoutC cfgX wR (apsT.drop 3) ([], [])).1.take 20)) 192 none 0 ⟨192, [], []⟩).err = none ∧
+    (readAll cfgX (D3 ++ allFilesK cfgX wR [] c3.bytes ((layoutC cfgX wR (apsT.drop 3) ([], [])).1.take 20)) 192 none 0
+      ⟨192, [], []⟩).eng.evs.map (·.1) = [192] := by decide
+
+/-! durability order at rotation: the mutated variant -/
+
+/-- the seeded mutation C18-r3-2 as a variant: after ROTATE_TO was written to the old chunk, the final Sync goes to the NEW fd -/
+def rotateFSBad (l : LS) (rotTo rotFrom : Bytes) : LS :=
+  let old := l.cur.sync
+  let new : FileS := { data := rotFrom, synced := rotFrom.length }
+  { l with cur := new.sync, older := (old.write rotTo) :: l.older }
+
+def writeBufferBad (l : LS) (buff : Bytes) : Nat → List Nat → LS
+  | prev, [] => { l with cur := l.cur.write (buff.drop prev) }
+  | prev, pos :: ps =>
+    let to := pos - levRotateSize
+    let l1 := { l with cur := l.cur.write (slice buff prev to) }
+    let l2 := rotateFSBad l1 (slice buff to pos) (slice buff pos (pos + levRotateSize))
+    writeBufferBad l2 buff (pos + levRotateSize) ps
+
+def iterBad (s : Sys) (timer stop : Bool) : Sys :=
+  let ts := lastRotTs s.w.buff s.w.rotPos s.w.lastTs
+  let l1 : LS := if s.w.buff.isEmpty then s.l else { writeBufferBad s.l s.w.buff 0 s.w.rotPos with dirty := true }
+  { w := takeBuf s.w stop ts, l := if mustSync l1 s.w.asap timer stop s.w.offG then syncCommit l1 s.w ts else l1 }
+
+def sysStepBad (cfg : Cfg) (s : Sys) : WOp → Sys
+  | .put inOff body asap ts h1 h2 => { s with w := (putLev cfg s.w inOff body asap ts h1 h2).1 }
+  | .iter t st => iterBad s t st
+
+-- the schedule `opsT` (rotation at 80, commit 116): with the code's order every commit is covered in every file; with the
+-- mutated order Commit(116) is announced while the 36 bytes of ROTATE_TO in the closed chunk (bytes 44..80) are not fsynced
+set_option maxRecDepth 60000 in
+example : ((run cfgR sys0 opsT).l.commits.map (fun c => Covered 0 (run cfgR sys0 opsT).l c.off)) = [true, true, true] := by decide
+set_option maxRecDepth 60000 in
+example : ((opsT.foldl (sysStepBad cfgR) sys0).l.commits.map (·.off)) = [116, 24, 12] ∧
+    Covered 0 (opsT.foldl (sysStepBad cfgR) sys0).l 116 = false ∧
+    (opsT.foldl (sysStepBad cfgR) sys0).l.older.map (fun f => (f.data.length, f.synced)) = [(80, 44)] := by decide
+
+
 /-! ### defect fixed by fixes/C18-restart-first-chunk-hash.diff (sig=append-panic): witness on the old behaviour
 
   Before the fix WriteLoop left hashBuff2 empty after a restart (`restoreTail := false`).  MaxChunkSize 40000, the first
@@ -1064,12 +1358,10 @@ example : (readAll cfgT [chunk0, encRotFrom 5 72 0 999 2] 0 none 0 eng0).err = n
 
 /-
   STILL NOT PROVED (covered by the correspondence + oracle of go/C18):
-  * `readAll_from_commit` is stated for a binlog written in ONE session (the writer starts behind the head of a fresh
-    binlog); a binlog continued by a restarted writer is the same layout with `wsInit` as start state — the generic
-    `readAll_resume` (any chunk `c0` with `Acc`/`CurOK`) covers it once `Acc` is shown for `wsInit`, which is not done.
-  * the truncation theorems (`truncate_prefix`, `truncate_tail_files`) are stated behind the seek (state `At`, `finish`), not
-    through `readAll`: lifting them needs `scan_allFiles` for the cut file list (the header part is unchanged by the cut).
-  * resume WITHOUT meta through `readAll` (`seek_nometa` is proved, the wrapper instance is not).
+  * `Sessions.restart` takes the position/checksum of the previous writer state as what the replay returned; that the replay
+    does return them is `readAll_resume_sessions` itself (pos/crc of the result) — the two are not composed into one statement
+    about `wsInit` applied to the `RA` record (fields `last`, `ts` are free parameters of `restart`).
+  * bit flips: `crc_record_checked` is the reduction form; no end-to-end `readAll` statement for a flipped file list.
 -/
 
 end SH.C18
